@@ -249,6 +249,17 @@ class Facts:
         for f in self.functions:
             if f.get('body') is not None and not f['file'].endswith('lex.yy.c'):
                 _chains_to_switch(f['body'])
+        # one-line const predicates: bool p() const { return <expression over members>; }
+        try:
+            from . import cfg as _cfg
+            for f in self.functions:
+                b = f.get('body')
+                if f.get('kind') == 'method' and not f.get('params') and b is not None and f['tmpl'] in ('none', 'inst') and b.get('k') == 'block' and len(b.get('s', [])) == 1 and \
+                        b['s'][0].get('k') == 'return' and b['s'][0].get('e') is not None and (b['s'][0]['e'].get('cty') or '') == 'bool' and \
+                        not any(x.get('k') == 'call' and x.get('callee_in_repo') for x in walk_expr(b['s'][0]['e'])):
+                    _cfg.PREDICATE_BODIES[f['sig']] = b['s'][0]['e']
+        except ImportError:
+            pass
         # front-end health
         bad = [x for x in self.diagnostics if x['level'] == 'error' and x['in_root']]
         if bad:
